@@ -167,7 +167,6 @@ func RefereeJq(ctx *Ctx, st *Stream, srcs []string, inputs []any) int {
 	return confirmed
 }
 
-
 // JqAvailable reports whether the reference binary exists.
 func JqAvailable() bool {
 	_, err := exec.LookPath(jqBin)
